@@ -464,10 +464,27 @@ pub fn native_subjects(prop: &str) -> Vec<Subject> {
     // checked under C10 with a tolerance elsewhere; here count/chunking.
     for size in [1usize, 2, 4, 8] {
         let data = test_complex(2 * size + 3);
-        v.push(s11("FftStream", format!("size={size}"), size, data, vec![], native_starts(CC, CC), 1, move |r| {
-            let (b, o) = FftStream::new(r, size);
-            (bx(b), o)
-        }));
+        // Framing specification: whole frames of `size` samples, in order, each
+        // transformed on its own; a trailing partial frame is not emitted. The
+        // transform of one frame is taken from the same FFT library (its values
+        // are judged against an O(n^2) DFT under C11).
+        let mut want: Vec<Complex> = vec![];
+        {
+            let mut planner = rustfft::FftPlanner::<f32>::new();
+            let fft = planner.plan_fft_forward(size);
+            for frame in data.chunks_exact(size) {
+                let mut f = frame.to_vec();
+                fft.process(&mut f);
+                want.extend(f);
+            }
+        }
+        v.push(with_samples(
+            s11("FftStream", format!("size={size}"), size, data, vec![], native_starts(CC, CC), 1, move |r| {
+                let (b, o) = FftStream::new(r, size);
+                (bx(b), o)
+            }),
+            cb(&want),
+        ));
     }
     // Clock recovery.
     {
